@@ -5,6 +5,6 @@ cd "$(dirname "$(readlink -f "$0")")/.."
 RUNS=${1:-200000}; SEED=${2:-1}
 mkdir -p build/soak_out
 for p in $(python3 -c "import json; print(' '.join(c['property_id'] for c in json.load(open('MANIFEST.json'))['checks']))"); do
-  VERIF_SEED=$SEED VERIF_RUNS=$RUNS VERIF_TIME=7200 VERIF_OUT=$PWD/build/soak_out scripts/check.sh $p quick > build/soak.$p.log 2>&1
+  VERIF_SEED=$SEED VERIF_RUNS=$RUNS VERIF_TIME=${SOAK_TIME:-7200} VERIF_OUT=$PWD/build/soak_out scripts/check.sh $p quick > build/soak.$p.log 2>&1
   echo "$p exit=$? $(grep -a 'quick:' build/soak.$p.log | cut -c1-70) $(grep -a -c '^VIOLATION' build/soak.$p.log) violations"
 done
